@@ -10,7 +10,7 @@ cp /repo/Cargo.lock harness/Cargo.lock 2>/dev/null || true
 (cd harness && CARGO_TARGET_DIR=/verif/.cache/cargo-target-bs RUSTFLAGS="--cfg lambda_calculus_verif" cargo build --release --offline --quiet --features backslash)
 (cd harness && CARGO_TARGET_DIR=/verif/.cache/cargo-target-dev RUSTFLAGS="--cfg lambda_calculus_verif" cargo build --offline --quiet)   # dev profile: deep-input suites
 # 2. generated Coq sources (term constants of the data modules)
-python3 lib/gen.py /verif/.cache/cargo-target/release
+python3 lib/gen.py /verif/.cache/cargo-target/release   # Gen/Terms.v, Gen/ReductionSrc.v, Gen/TermSrc.v
 # 3. the Coq development, full .vo build
 (cd coq && coq_makefile -f _CoqProject -o Makefile >/dev/null && timeout 7000 make -j16 >/dev/null)
 # 4. extraction + OCaml driver
